@@ -60,13 +60,14 @@ def new_instance(cls, cfg):
 class Model:
     """(target, override) per instance."""
 
-    def __init__(self, cfg, target=_NONE, override=_NONE):
+    def __init__(self, cfg, target=_NONE, override=_NONE, holder=True):
         self.cfg = cfg
         self.target = target
         self.override = override
+        self.holder = holder  # the intermediate object of a multi-step path (o.inner / o.data) exists
 
     def clone(self):
-        return Model(self.cfg, self.target, self.override)
+        return Model(self.cfg, self.target, self.override, self.holder)
 
     def read(self):
         c = self.cfg
@@ -80,6 +81,8 @@ class Model:
 
     def write(self, v):
         if self.cfg["passthrough"]:
+            if not self.holder:
+                return ("raise", (AttributeError, KeyError))
             self.target = v
         else:
             self.override = v
@@ -97,9 +100,14 @@ class Model:
         return ("ok", None)
 
 
+HOLDER = {"dotted": "inner", "item": "data", "mixed": "inner"}
+
+
 def target_get(o, path):
     if path == "plain":
         return o.__dict__.get("target", _NONE)
+    if HOLDER[path] not in o.__dict__:
+        return _NONE  # no intermediate object: no target
     if path == "dotted":
         return o.inner.__dict__.get("value", _NONE)
     if path == "item":
@@ -143,6 +151,8 @@ class C18(Check):
     def gen_op(self, src, cfg):
         ks = [("read", 6), ("write", 4), ("delete", 2), ("t_write", 3), ("t_delete", 1.5), ("t_read", 1), ("mutate_fallback", 1),
               ("deepcopy", 1), ("switch", 1)]
+        if cfg["path"] != "plain":
+            ks += [("h_drop", 1.2), ("h_restore", 1.2)]  # the intermediate object of the path goes away / comes back
         if cfg["host"] == "spec":
             ks += [("with_al", 2), ("with_target", 1.5), ("reset_al", 1)]
         k = src.weighted(ks)
@@ -201,7 +211,19 @@ class C18(Check):
         elif k == "t_read":
             exp = ("ok", m.target) if m.target is not _NONE else ("ok", _NONE)
         elif k == "t_write":
-            m.target = op["v"]
+            if not m.holder:
+                exp = ("raise", (AttributeError, KeyError))
+            else:
+                m.target = op["v"]
+                exp = ("ok", None)
+        elif k == "h_drop":
+            if not m.holder:
+                exp = ("raise", (AttributeError,))
+            else:
+                m.holder, m.target = False, _NONE
+                exp = ("ok", None)
+        elif k == "h_restore":
+            m.holder, m.target = True, _NONE
             exp = ("ok", None)
         elif k == "t_delete":
             if m.target is _NONE:
@@ -241,6 +263,10 @@ class C18(Check):
                     target_set(o, path, op["v"])
                 elif k == "t_delete":
                     target_del(o, path)
+                elif k == "h_drop":
+                    delattr(o, HOLDER[path])
+                elif k == "h_restore":
+                    setattr(o, HOLDER[path], {} if HOLDER[path] == "data" else Inner())
                 elif k == "mutate_fallback":
                     got = o.al
                     if isinstance(got, list):
